@@ -14,7 +14,7 @@ func init() {
 		Decides: "the structural part of the stream header protocol, not the round trip over chunked streams: " +
 			"(R30.1) no panic on peer input: every unchecked type assertion of the broker is applied to the header of a readHead call that succeeded for the matching data type, and readHead succeeds only after the checked assertion for that data type; " +
 			"(R30.2) writer and reader walk the same layout in the same order: head = data type, lengthed encoder hint, lengthed header bytes; body = data type, body type, a length part exactly for the fixed-length kind, then the bytes; each side's data-type constant is the one the other side requires; " +
-			"(R30.3) peer bytes are used only after validation: data type and body type are handed out only if read in full and IsValid, the encoder only if the hint was read and found; the raw reader is touched only by the tabled read helpers (all bounded by C29).",
+			"(R30.3) peer bytes are used only after validation: data type and body type are handed out only if read in full and IsValid, the encoder only if the hint was read and found; the raw reader is touched only by the tabled read helpers (all bounded by C29). A reader that limits a body to its announced length decreases its remaining length by exactly the count the underlying read returned, never asks the stream for more than what is left and hands back that count.",
 		NotDecided: "arbitrary chunking (delegated to C29's who-may-Read rule); that a fixed-length body delivers as many bytes as announced (the broker hands out a reader limited to the announced length; a short stream ends it early without an error); panics inside the registered header decoders.",
 		Run:        runC30,
 	})
@@ -206,6 +206,7 @@ func runC30(c *Ctx) {
 							}
 						}
 						why = "Read of " + n.Obj().Name() + " answers io.ErrUnexpectedEOF when the inner read reports EOF with bytes left: " + fmt.Sprint(early)
+						limitedReadRules(c, rd)
 					}
 				}
 				c.Report(cl, "body reader: a fixed-length body that ends early is reported as an error", c.InstrPos(limited), early, why)
@@ -292,4 +293,60 @@ func storeBlock(c *Ctx, fn *ssa.Function, addr string) *ssa.BasicBlock {
 		return in.Block()
 	}
 	return nil
+}
+
+// limitedReadRules: the Read of an in-tree reader that limits a stream to an announced length.
+// Its remaining-length counter must follow the bytes that really came: every store to it subtracts
+// exactly the count the inner Read returned (a count taken from the size of the buffer asked for
+// ends the body early on a short read and leaves its rest to be parsed as the next message), the
+// inner Read is never asked for more than what is left, and the count handed to the caller is the
+// inner read's.
+func limitedReadRules(c *Ctx, rd *ssa.Function) {
+	inner := c.CallsTo(rd, "(io.Reader).Read")
+	if !c.Exists(rd, "limited reader: one read of the underlying stream", inner, 1) || len(inner) != 1 {
+		return
+	}
+	in := inner[0]
+	cnt := c.D(in.(ssa.Value)) + "#0"
+	// the counter: stores to a field of the receiver of unsigned type
+	var stores []ssa.Instruction
+	field := ""
+	for _, x := range allInstrs(rd) {
+		st, ok := x.(*ssa.Store)
+		if !ok {
+			continue
+		}
+		fa, isFA := st.Addr.(*ssa.FieldAddr)
+		if !isFA || !isUnsigned(st.Val.Type()) || len(rd.Params) == 0 || fa.X != ssa.Value(rd.Params[0]) {
+			continue
+		}
+		stores = append(stores, x)
+		field = strings.TrimPrefix(c.D(st.Addr), "&")
+	}
+	if !c.Exists(rd, "limited reader: the remaining length is updated", stores, 1) {
+		return
+	}
+	for _, x := range stores {
+		d := c.D(x.(*ssa.Store).Val)
+		c.Report(rd, "limited reader: the remaining length shrinks by exactly the count the underlying read returned", c.InstrPos(x), d == "("+field+" - "+cnt+")", d)
+	}
+	// never asks for more than what is left
+	arg := CallArg(in, 0)
+	detail := "limited reader: the underlying stream is never asked for more than what is left"
+	if phi, isPhi := arg.(*ssa.Phi); isPhi {
+		for _, e := range phi.Edges {
+			d := c.D(e)
+			if d == "p[:"+field+"]" {
+				continue
+			}
+			// the whole buffer only where its size was compared with what is left
+			c.MPEdge(rd, detail+" (buffer "+d+")", c.PhiLeafEdges(phi, globEscape(d)), 1, GCmp("len("+d+")", "<=", field))
+		}
+	} else if d := c.D(arg); d != "p[:"+field+"]" {
+		c.MP(rd, detail+" (buffer "+d+")", []ssa.Instruction{in}, 1, GCmp("len("+d+")", "<=", field))
+	}
+	for _, r := range Returns(rd) {
+		d := c.D(RetVal(r, 0))
+		c.Report(rd, "limited reader: the count handed back is the underlying read's (or zero)", c.InstrPos(r), d == cnt || d == "0", d)
+	}
 }
